@@ -21,6 +21,10 @@ pub struct TreeMap { pub m: Ghost<Map<Seq<char>, Template>> }
 pub struct ScriptMap { pub m: Ghost<Map<Seq<char>, Seq<char>>> }
 impl TreeMap {
     #[verifier::external_body]
+    pub fn is_empty(&self) -> (r: bool) ensures r == (forall|k: Seq<char>| !self.m@.contains_key(k)), { unimplemented!() }
+    #[verifier::external_body]
+    pub fn contains_key(&self, k: &str) -> (r: bool) ensures r == self.m@.contains_key(k@), { unimplemented!() }
+    #[verifier::external_body]
     pub fn new() -> (r: TreeMap) ensures r.m@ == Map::<Seq<char>, Template>::empty(), { unimplemented!() }
     #[verifier::external_body]
     pub fn insert(&mut self, k: String, v: Template) -> (r: Option<Template>)
@@ -35,6 +39,10 @@ impl TreeMap {
     { unimplemented!() }
 }
 impl ScriptMap {
+    #[verifier::external_body]
+    pub fn is_empty(&self) -> (r: bool) ensures r == (forall|k: Seq<char>| !self.m@.contains_key(k)), { unimplemented!() }
+    #[verifier::external_body]
+    pub fn contains_key(&self, k: &str) -> (r: bool) ensures r == self.m@.contains_key(k@), { unimplemented!() }
     #[verifier::external_body]
     pub fn new() -> (r: ScriptMap) ensures r.m@ == Map::<Seq<char>, Seq<char>>::empty(), { unimplemented!() }
     #[verifier::external_body]
